@@ -17,37 +17,23 @@ Theorem C18_closed_sound_sites : forall P K Ix, closedb P K Ix = true ->
 Proof. exact closed_sound_sites. Qed.
 Print Assumptions C18_closed_sound_sites.
 
-(* 2. the generated program, every callback installed: the FULL statement [C18_full] is false ... *)
-Theorem C18_refuted :
-  forall t, In t known_sites -> exists cfg, reachable P_all cfg /\ stuck_info P_all cfg = Some t.
-Proof. exact c18_refuted. Qed.
-Print Assumptions C18_refuted.
+(* 2. the generated program (client.py as it is now), every user callback installed, callbacks calling any of
+      publish / subscribe / unsubscribe / disconnect / reconnect / message_callback_add / message_callback_remove /
+      loop_stop, any number of times, nested to any depth: NO reachable configuration blocks.
+      [C18_full] is [no_stuck_reachable P_all]. *)
+Theorem C18_no_self_deadlock : no_stuck_reachable P_all.
+Proof. exact c18_full. Qed.
+Print Assumptions C18_no_self_deadlock.
 
-Theorem C18_full_is_false : ~ C18_full.
-Proof. exact c18_full_refuted. Qed.
-Print Assumptions C18_full_is_false.
-
-(* ... and holds outside the listed (callback, reconnect, _in_callback_mutex, _call_socket_close|open) sites *)
-Theorem C18_no_self_deadlock_partial :
-  forall cfg t, reachable P_all cfg -> stuck_info P_all cfg = Some t -> In t known_sites.
-Proof. exact c18_partial. Qed.
-Print Assumptions C18_no_self_deadlock_partial.
-
-(* 3. on_socket_open / on_socket_close not installed: the full statement holds *)
+(* 3. the same with on_socket_open / on_socket_close not installed (the other point of the product) *)
 Theorem C18_no_self_deadlock_without_socket_open_close : no_stuck_reachable P_nosock.
 Proof. exact c18_nosock. Qed.
 Print Assumptions C18_no_self_deadlock_without_socket_open_close.
 
-(* 4. connect() / connect_async() from a callback: same two lock sites, nothing else; each reachable *)
-Theorem C18_connect_partial :
-  forall cfg t, reachable P_ext cfg -> stuck_info P_ext cfg = Some t -> In t known_sites_ext.
-Proof. exact c18_ext_partial. Qed.
-Print Assumptions C18_connect_partial.
-
-Theorem C18_connect_refuted :
-  forall t, In t known_sites_ext -> exists cfg, reachable P_ext cfg /\ stuck_info P_ext cfg = Some t.
-Proof. exact c18_ext_refuted. Qed.
-Print Assumptions C18_connect_refuted.
+(* 4. ... and when the callbacks may also call connect() / connect_async() *)
+Theorem C18_no_self_deadlock_connect : no_stuck_reachable P_ext.
+Proof. exact c18_full_connect. Qed.
+Print Assumptions C18_no_self_deadlock_connect.
 
 (* 5. the source was translated without unclassified calls or lock operations *)
 Theorem C18_translation_clean : translation_problems = [] /\ calls_defined prog = true.
@@ -80,14 +66,11 @@ Example C18_written_next_nonvacuous :
   let s := mkQ [] [] false false false in
   wire (packet_queue 10 cb 1%N s) = [1%N; 7%N] /\ outq (packet_queue 10 cb 1%N s) = [].
 Proof. exact written_next_nonvacuous. Qed.
-Example C18_known_sites_count : length known_sites = 28%nat.
-Proof. reflexivity. Qed.
-Example C18_stuck_sites_are_exactly_the_known_ones :
-  subset_sites (stuck_sites_of P_all Ix_all) known_sites && subset_sites known_sites (stuck_sites_of P_all Ix_all) = true.
-Proof. exact stuck_sites_are_known. Qed.
+Example C18_interpreter_meets_no_stuck_site : stuck_sites_of P_all Ix_all = [] /\ stuck_sites_of P_ext Ix_ext = [].
+Proof. exact no_stuck_sites. Qed.
 Example C18_callbacks_run_under_lock :
   forallb (fun c => existsb (fun x => N.eqb (fst x) c && N.testbit (snd x) l_priv_in_callback_mutex) cbctx_all)
-          known_callbacks
+          all_callback_kinds
   && existsb (fun x => N.eqb (fst x) cb_on_publish && N.testbit (snd x) l_priv_out_message_mutex) cbctx_all = true.
 Proof. exact callbacks_run_under_lock. Qed.
 Example C18_try_lock_guard_effective :
@@ -98,6 +81,13 @@ Example C18_checker_detects_missing_guard :
   mem_site (Some (cb_on_connect, m_publish), WLock l_priv_in_callback_mutex, m_priv_packet_write)
            (stuck_sites P_noguard fuel) = true.
 Proof. exact noguard_detected. Qed.
+(* regression F-C18b/c: with the locking _call_socket_open/_close had before 5844bc2 the checker reports the 28 sites *)
+Example C18_checker_detects_old_socket_locking :
+  let ss := stuck_sites P_oldsock fuel in
+  mem_site (Some (cb_on_connect, m_reconnect), WLock l_priv_in_callback_mutex, m_priv_call_socket_close) ss
+  && mem_site (Some (cb_on_disconnect, m_reconnect), WLock l_priv_in_callback_mutex, m_priv_call_socket_open) ss
+  && Nat.eqb (length ss) 28 = true.
+Proof. exact old_socket_locking_detected. Qed.
 Example C18_entries_cover :
   forallb (fun e => memN e c18_entries)
           ([m_loop; m_loop_read; m_loop_write; m_loop_misc; m_loop_forever; m_loop_start; m_connect; m_connect_async;
